@@ -305,15 +305,16 @@ class Gen:
 			adv = rng.randint(self.max_adv, 25)
 		else:
 			adv = rng.choice([1000, 100000, HYPER + 5, 5000000])
-		kind = rng.choice(["NB", "NB", "NB", "SB", "AB", "FB", "RAND", "RAND", "EDGE", "DUMMY"])
+		kind = rng.choice(["NB", "NB", "NB", "SB", "AB", "FB", "RAND", "RAND", "EDGE", "DUMMY",
+			"TKNB", "TKNB", "TKSB", "TKAB", "TKFB", "TKDB"])
 		if rng.random() < 0.04:
 			kind = rng.choice(["IDLE", "ODD"])
 		ver = st["ver"] if rng.random() < 0.93 else 1 - st["ver"]
 		op = {"op": "burst", "trx": i, "adv": adv, "tn": rng.randrange(8),
 			"pwr": rng.choice([0, 0, 10, rng.randint(0, 60), rng.randint(0, 255)]),
 			"kind": kind, "bseed": rng.randrange(1 << 30), "ver": ver, "dt": self.dt()}
-		if kind in ("NB", "SB", "AB") and rng.random() < 0.7:
-			op["tsc"] = rng.randrange(8 if kind != "SB" else 4)
+		if kind in ("NB", "SB", "AB", "TKNB", "TKSB", "TKAB") and rng.random() < 0.7:
+			op["tsc"] = rng.randrange(8 if not kind.endswith("SB") else 4)
 		if kind == "ODD":
 			op["len"] = rng.choice([1, 10, 147, 149, 200, 443, 445, 600])
 		self.ops.append(self.fault(op))
@@ -452,10 +453,39 @@ class Gen:
 		self.ops.append({"op": "idle", "dt": self.rng.randrange(1, 12) * P_NS})
 
 
+def toolkit_burst(op):
+	"""A burst from the toolkit's own generator (rand_burst_gen.RandBurstGen), seeded."""
+	import random
+	rbg = toolkit.tk("rand_burst_gen")
+	gs = toolkit.tk("gsm_shared")
+	saved = rbg.__dict__.get("random")
+	rbg.random = random.Random(op["bseed"])
+	try:
+		g = rbg.RandBurstGen()
+		which = op["kind"][2:]
+		tsc = op.get("tsc")
+		member = getattr(gs.TrainingSeqGMSK, "%s_TS%d" % (which, tsc)) if (tsc is not None and which in ("NB", "SB", "AB")) else None
+		if which == "NB":
+			b = g.gen_nb(member)
+		elif which == "SB":
+			b = g.gen_sb(member)
+		elif which == "AB":
+			b = g.gen_ab(member)
+		elif which == "FB":
+			b = g.gen_fb()
+		else:
+			b = g.gen_db()
+		return bytes(b)
+	finally:
+		rbg.random = saved
+
+
 def burst_bits(op):
 	import random
 	r = random.Random(op["bseed"])
 	kind = op["kind"]
+	if kind.startswith("TK"):
+		return toolkit_burst(op)
 	if kind == "IDLE":
 		return b""
 	if kind == "ODD":
@@ -626,7 +656,16 @@ class World:
 			fn = (self.cur_fn + op["adv"]) % (1 << 32)
 			if op["adv"] < 0 and self.cur_fn + op["adv"] < 0:
 				fn = 0
-			data = rc.enc_tx(op.get("ver", 0), op["tn"], fn, op["pwr"], burst_bits(op))
+			bits = burst_bits(op)
+			if op["kind"].startswith("TK"):
+				which = op["kind"][2:]
+				ok = len(bits) == 148
+				if ok and which in ("NB", "SB", "AB") and op.get("tsc") is not None:
+					ok = (op["tsc"], 0, which) in rc.ts_candidates(bits)
+				if ok and which == "FB":
+					ok = not any(bits)
+				self.sim.record("toolkit-burst", which=which, tsc=op.get("tsc"), ok=ok, length=len(bits))
+			data = rc.enc_tx(op.get("ver", 0), op["tn"], fn, op["pwr"], bits)
 			self.send_to_trx(t, "data", data, op)
 
 	def do_parse(self, op):
@@ -862,6 +901,10 @@ class UmEngine:
 			dead = [d for d in sim.deaths]
 			viols = mon.finish(sim.now, dead)
 			for t, k, kw in sim.history:
+				if k == "toolkit-burst":
+					mon.m.probe("toolkit-generator-burst")
+					if not kw["ok"]:
+						viols.insert(0, {"clause": "meta.generator-layout", "detail": dict(kw), "owners": ["C10"]})
 				if k == "parse-raised":
 					viols.insert(0, {"clause": "hostile.parser-raised", "detail": dict(kw),
 						"signature": "hostile.parser-raised/%s/%s" % (kw["cls"], kw["exc"]), "owners": ["C14"]})
